@@ -89,8 +89,6 @@ def main():
                 for c in json.load(open(rp)).get("caught_by", []):
                     if c not in checks:
                         checks.append(c)
-            if os.path.exists(rp) and len(json.load(open(rp)).get("checks", {})) < len(ALL):
-                checks = ALL  # not yet run against everything
             res = run_one(d, checks)
             if res is not None and not res["caught_by"]:
                 missed.append(name)
